@@ -66,7 +66,7 @@ Record chip_st := mkChip { ch_cores : list core_st; ch_fill : option fill_st }.
 Record machine := mkMachine {
   m_buffer : Z;                        (* SCP data buffer size reported by sver *)
   m_base : Z;                          (* sv->sdram_sys *)
-  m_vcpu : Z;                          (* sv->vcpu_base *)
+  m_vcpu : chip -> Z;                  (* sv->vcpu_base of each chip *)
   m_chips : list (chip * chip_st);
   m_sched : list (list chip);          (* chips that miss the next fills *)
   m_deaf : list chip }.                (* chips that miss the current fill *)
@@ -104,14 +104,14 @@ Definition VCPU_APP_ID : Z := 47.            (* 0x2f *)
 Definition N_CORES : Z := 18.
 
 (* ---------------------------------------------------------------- memory *)
-Definition mem_byte (m : machine) (cs : list core_st) (a : Z) : Z :=
+Definition mem_byte (m : machine) (vb : Z) (cs : list core_st) (a : Z) : Z :=
   if (SV_BASE + SV_SDRAM_SYS <=? a) && (a <? SV_BASE + SV_SDRAM_SYS + 4)
   then nth (Z.to_nat (a - (SV_BASE + SV_SDRAM_SYS))) (le32 (m_base m)) 0
   else if (SV_BASE + SV_VCPU_BASE <=? a) && (a <? SV_BASE + SV_VCPU_BASE + 4)
-  then nth (Z.to_nat (a - (SV_BASE + SV_VCPU_BASE))) (le32 (m_vcpu m)) 0
-  else if (m_vcpu m <=? a) && (a <? m_vcpu m + VCPU_SIZE * N_CORES)
-  then let p := (a - m_vcpu m) / VCPU_SIZE in
-       let off := (a - m_vcpu m) mod VCPU_SIZE in
+  then nth (Z.to_nat (a - (SV_BASE + SV_VCPU_BASE))) (le32 (vb)) 0
+  else if (vb <=? a) && (a <? vb + VCPU_SIZE * N_CORES)
+  then let p := (a - vb) / VCPU_SIZE in
+       let off := (a - vb) mod VCPU_SIZE in
        match nth_error cs (Z.to_nat p) with
        | Some c => if off =? VCPU_CPU_STATE then cs_state c mod 256
                    else if off =? VCPU_APP_ID then cs_app c mod 256 else 0
@@ -119,8 +119,12 @@ Definition mem_byte (m : machine) (cs : list core_st) (a : Z) : Z :=
        end
   else 0.
 
-Definition mread (m : machine) (cs : list core_st) (addr len : Z) : list Z :=
-  map (fun i => mem_byte m cs (addr + Z.of_nat i)) (seq 0 (Z.to_nat len)).
+Definition mread (m : machine) (vb : Z) (cs : list core_st) (addr len : Z) : list Z :=
+  map (fun i => mem_byte m vb cs (addr + Z.of_nat i)) (seq 0 (Z.to_nat len)).
+
+(* a machine description gives vcpu_base per chip as a table with a default *)
+Definition vcpu_table (t : list (chip * Z)) (d : Z) : chip -> Z :=
+  fun xy => match cassoc xy t with Some v => v | None => d end.
 
 (* ---------------------------------------------------------------- flood fill, one chip *)
 Definition set_fill (c : chip_st) (f : option fill_st) : chip_st := mkChip (ch_cores c) f.
@@ -217,7 +221,7 @@ Definition mstep (m : machine) (q : pkt) : machine * reply :=
       if cmd =? CMD_VER then (m, RSver (m_buffer m))
       else if cmd =? CMD_READ then
         if q_a2 q >? m_buffer m then (m, RError)
-        else (m, RData (mread m (ch_cores c) (q_a1 q) (q_a2 q)))
+        else (m, RData (mread m (m_vcpu m xy) (ch_cores c) (q_a1 q) (q_a2 q)))
       else if cmd =? CMD_NNP then
         let m1 := if field (q_a1 q) 24 8 =? NN_FFS
                   then mkMachine (m_buffer m) (m_base m) (m_vcpu m) (m_chips m)
